@@ -186,7 +186,8 @@ def run(ctx):
                 if not as_pred:
                     from hpl.ast import HplVarReference
                     derivations.append(('replace_var_reference', lambda: h.replace_var_reference(names[0], HplVarReference('@Zq'))))
-            derivations.append(('simplify', lambda: RW.simplify(h)))
+            if not S.power_bomb(h):  # hpl folds astronomically large integer powers with Python big integers
+                derivations.append(('simplify', lambda: RW.simplify(h)))
             for dname, thunk in derivations:
                 od = hplapi.outcome(thunk)
                 if od[0] != 'ok' or od[1] is h:
